@@ -15,5 +15,7 @@ CONSTANTS
   ALLHITS = FALSE
   NSAVE = 2
   FRESH = FALSE
+  NRESET = 0
+  SHARE = FALSE
 INVARIANT NoRepeat
 CHECK_DEADLOCK FALSE
